@@ -2039,9 +2039,11 @@ class Cursor(object):
         self.collection = collection
         spec = helpers.patch_datetime_awareness_in_document(spec)
         self._spec = spec
+        # Copies, as the filter is one: the query is the one given when find was called.
+        sort = copy.deepcopy(sort)
         self._sort = sort
-        # A copy, as the filter is one: the query is the one given when find was called.
-        projection = copy.deepcopy(projection)
+        # A datetime in a condition of the projection ($elemMatch) is read as in the filter.
+        projection = helpers.patch_datetime_awareness_in_document(copy.deepcopy(projection))
         self._projection = projection
         self._skip = skip
         self._factory_last_generated_results = None
